@@ -704,21 +704,37 @@ theorem addAll_listed (s : Nat) (vs : List VInfo) (c : Core) :
       rw [(addOrUpdate_fields c s v).1]; simp [upd3]
     · exact ih _ v h
 
+/-- one deletion of DeltaUpdateVolumes (`delReg`): whether or not the volume was registered, afterwards it is not -/
+theorem delReg_vols (c : Core) (s : Nat) (v : VInfo) (s' t x : Nat) :
+    (c.delReg s v).vols s' t x = upd3 c.vols s v.key.disk v.id none s' t x := by
+  unfold Core.delReg
+  split
+  · rfl
+  · next h =>
+    unfold upd3
+    split
+    · next e => obtain ⟨rfl, rfl, rfl⟩ := e; exact h
+    · rfl
+
+theorem delReg_conn_nVid (c : Core) (s : Nat) (v : VInfo) :
+    (c.delReg s v).conn = c.conn ∧ (c.delReg s v).nVid = c.nVid := by
+  unfold Core.delReg
+  split <;> exact ⟨rfl, rfl⟩
+
 theorem dels_facts (s : Nat) (ds : List VInfo) (c : Core) :
-    ((ds.foldl (fun c v => c.delVol s v.key.disk v.id v.remote) c).conn = c.conn ∧
-     (ds.foldl (fun c v => c.delVol s v.key.disk v.id v.remote) c).nVid = c.nVid) ∧
-    (∀ s' t x, (ds.foldl (fun c v => c.delVol s v.key.disk v.id v.remote) c).vols s' t x =
+    ((ds.foldl (fun c v => c.delReg s v) c).conn = c.conn ∧
+     (ds.foldl (fun c v => c.delReg s v) c).nVid = c.nVid) ∧
+    (∀ s' t x, (ds.foldl (fun c v => c.delReg s v) c).vols s' t x =
       if s' = s ∧ ∃ v ∈ ds, v.key.disk = t ∧ v.id = x then none else c.vols s' t x) := by
   induction ds generalizing c with
   | nil => exact ⟨⟨rfl, rfl⟩, fun s' t x => by simp⟩
   | cons a ds ih =>
-    obtain ⟨⟨i1, i2⟩, i3⟩ := ih (c.delVol s a.key.disk a.id a.remote)
+    obtain ⟨⟨i1, i2⟩, i3⟩ := ih (c.delReg s a)
     simp only [List.foldl_cons]
-    refine ⟨⟨i1, i2⟩, ?_⟩
+    refine ⟨⟨i1.trans (delReg_conn_nVid c s a).1, i2.trans (delReg_conn_nVid c s a).2⟩, ?_⟩
     intro s' t x
     rw [i3]
-    have hv : (c.delVol s a.key.disk a.id a.remote).vols = upd3 c.vols s a.key.disk a.id none := rfl
-    rw [hv]
+    rw [delReg_vols]
     by_cases e : s' = s ∧ ∃ v ∈ ds, v.key.disk = t ∧ v.id = x
     · rw [if_pos e, if_pos]
       obtain ⟨e1, v, hv, hh⟩ := e
@@ -746,9 +762,9 @@ theorem hb_deltaUpdateVolumes {keyOf : Nat → Key} (s : Nat) (c : Core) (news d
   unfold Core.deltaUpdateVolumes
   rw [← addAll_fst]
   obtain ⟨⟨a1, a1'⟩, a2, a3, a4, a5, a6, a7⟩ := addAll_facts s news
-    (dels.foldl (fun c v => c.delVol s v.key.disk v.id v.remote) c)
+    (dels.foldl (fun c v => c.delReg s v) c)
   have slot : ∀ v ∈ news ++ dels, v.key.disk = (keyOf v.id).disk := fun v h => by rw [(hv v h).1]
-  have hrk1 : RegKey keyOf (dels.foldl (fun c v => c.delVol s v.key.disk v.id v.remote) c) := by
+  have hrk1 : RegKey keyOf (dels.foldl (fun c v => c.delReg s v) c) := by
     apply regKey_of_sub hr d2
     intro s' t x v h
     rw [d3] at h
@@ -767,8 +783,8 @@ theorem hb_deltaUpdateVolumes {keyOf : Nat → Key} (s : Nat) (c : Core) (news d
     by_cases hn : ∃ v ∈ news, v.id = x
     · exact Or.inl hn
     · right
-      have same : (Core.addAll (dels.foldl (fun c v => c.delVol s v.key.disk v.id v.remote) c) s news).1.vols s (keyOf x).disk x =
-          (dels.foldl (fun c v => c.delVol s v.key.disk v.id v.remote) c).vols s (keyOf x).disk x :=
+      have same : (Core.addAll (dels.foldl (fun c v => c.delReg s v) c) s news).1.vols s (keyOf x).disk x =
+          (dels.foldl (fun c v => c.delReg s v) c).vols s (keyOf x).disk x :=
         a2 s _ x (Or.inr (fun v hv' hh => hn ⟨v, hv', hh.2⟩))
       rw [same, d3] at hne
       by_cases e : s = s ∧ ∃ v ∈ dels, v.key.disk = (keyOf x).disk ∧ v.id = x
@@ -779,8 +795,8 @@ theorem hb_deltaUpdateVolumes {keyOf : Nat → Key} (s : Nat) (c : Core) (news d
     by_cases hn : ∃ u ∈ news, u.id = x
     · exact Or.inl hn
     · exfalso
-      have same : (Core.addAll (dels.foldl (fun c v => c.delVol s v.key.disk v.id v.remote) c) s news).1.vols s (keyOf x).disk x =
-          (dels.foldl (fun c v => c.delVol s v.key.disk v.id v.remote) c).vols s (keyOf x).disk x :=
+      have same : (Core.addAll (dels.foldl (fun c v => c.delReg s v) c) s news).1.vols s (keyOf x).disk x =
+          (dels.foldl (fun c v => c.delReg s v) c).vols s (keyOf x).disk x :=
         a2 s _ x (Or.inr (fun v hv' hh => hn ⟨v, hv', hh.2⟩))
       rw [same, d3] at h2
       split at h2
@@ -2394,10 +2410,10 @@ theorem updateVolumes_ecs (c : Core) (s : Nat) (vs : List VInfo) : (c.updateVolu
 
 theorem deltaUpdateVolumes_ecs (c : Core) (s : Nat) (news dels : List VInfo) : (c.deltaUpdateVolumes s news dels).ecs = c.ecs := by
   unfold Core.deltaUpdateVolumes
-  have h1 : ∀ (l : List VInfo) (c : Core), (l.foldl (fun c v => c.delVol s v.key.disk v.id v.remote) c).ecs = c.ecs := by
+  have h1 : ∀ (l : List VInfo) (c : Core), (l.foldl (fun c v => c.delReg s v) c).ecs = c.ecs := by
     intro l; induction l with
     | nil => intro c; rfl
-    | cons a l ih => intro c; simp only [List.foldl_cons]; rw [ih]; rfl
+    | cons a l ih => intro c; simp only [List.foldl_cons]; rw [ih]; unfold Core.delReg; split <;> rfl
   have h2 : ∀ (l : List VInfo) (c : Core), (l.foldl (fun c v => (c.addOrUpdate s v).1) c).ecs = c.ecs := by
     intro l; induction l with
     | nil => intro c; rfl
@@ -2492,7 +2508,7 @@ theorem deltaUpdateVolumes_conn_nVid (c : Core) (s : Nat) (ns ds : List VInfo) :
   obtain ⟨⟨d1, d2⟩, _⟩ := dels_facts s ds c
   unfold Core.deltaUpdateVolumes
   rw [← addAll_fst]
-  obtain ⟨⟨a1, a1'⟩, _⟩ := addAll_facts s ns (ds.foldl (fun c v => c.delVol s v.key.disk v.id v.remote) c)
+  obtain ⟨⟨a1, a1'⟩, _⟩ := addAll_facts s ns (ds.foldl (fun c v => c.delReg s v) c)
   exact ⟨a1.trans d1, a1'.trans d2⟩
 
 theorem ecinv_conn {D : Nat → Nat} {st : St} (h : EcInv D st) (s dc rack mh ms : Nat) : EcInv D (conn st s dc rack mh ms) := by
